@@ -35,7 +35,7 @@ class Unsupported(Exception):
     pass
 
 
-LEAN_T = {"I": "Int", "F": "Rat", "B": "Bool", "L": "List Int", "S": "String", "OF": "Option Rat"}
+LEAN_T = {"I": "Int", "F": "Rat", "B": "Bool", "L": "List Int", "S": "String", "OF": "Option Rat", "E": "Ev", "LE": "List Ev"}
 IDENT = {"float", "JulianDate", "ScenarioTime", "cls"}
 
 
@@ -66,6 +66,7 @@ class FnTr:
                 raise Unsupported(f"{lean_name}: no declared type for parameter {a}")
             self.params.append((a, ptypes[a]))
         self.extra_params = []
+        self.local_types = {}
         self.aux = []  # auxiliary definitions (loops)
         self.guards = []
         self.ret_type = None
@@ -107,6 +108,18 @@ class FnTr:
             return (f"({e} = true)" if t == "B" else e), t
         if isinstance(n, ast.Attribute) and isinstance(n.value, ast.Name) and n.value.id == "Explanation":
             return f"\"{n.attr}\"", "S"
+        if isinstance(n, ast.Attribute) and isinstance(n.value, ast.Name) and env.get(n.value.id) == "E" and n.attr in ("time", "end_time", "start_time"):
+            return f"{self.v(n.value.id)}.{n.attr}", "F"
+        if isinstance(n, ast.Call) and isinstance(n.func, ast.Name) and n.func.id == "isinstance" and isinstance(n.args[0], ast.Name) \
+                and env.get(n.args[0].id) == "E":
+            # the event classes with a duration (the tuple the code tests for is recorded in the generated text)
+            return f"({self.v(n.args[0].id)}.isBurn = true)", "B"
+        if isinstance(n, ast.Compare) and len(n.ops) == 1 and isinstance(n.ops[0], ast.In):
+            a, ta = self.expr(n.left, env)
+            b, tb = self.expr(n.comparators[0], env)
+            if (ta, tb) != ("E", "LE"):
+                raise Unsupported("membership test")
+            return f"({b}.contains {a} = true)", "B"
         if isinstance(n, ast.UnaryOp) and isinstance(n.op, ast.Not):
             e, t = self.expr(n.operand, env)
             if t != "B":
@@ -216,6 +229,8 @@ class FnTr:
             return f"(pyAbs {self.toF(*args[0])})", "F"
         if f == "sign" and len(args) == 1:
             return f"(pySign {self.toF(*args[0])})", "F"
+        if f in XKNOWN and f not in self.known:
+            self.known[f] = XKNOWN[f]
         if f in self.known:
             lean, ptys, rty = self.known[f]
             if len(args) != len(ptys):
@@ -223,7 +238,8 @@ class FnTr:
             conv = []
             for (e, t), pt in zip(args, ptys):
                 conv.append(e if t == pt else self.toF(e, t) if pt == "F" else (_ for _ in ()).throw(Unsupported(f"argument type {t} for {pt}")))
-            return "(" + " ".join([lean] + conv) + ")", rty
+            app = "(" + " ".join([lean] + conv) + ")"
+            return (f"({app} = true)" if rty == "B" else app), rty
         raise Unsupported(f"call {f}")
 
     # ---- statements ----------------------------------------------------------------------------
@@ -254,7 +270,13 @@ class FnTr:
             elif isinstance(s, ast.While):
                 for x in self.assigned(s.body):
                     add(x)
-            elif isinstance(s, (ast.Expr, ast.Pass)):
+            elif isinstance(s, ast.Expr) and isinstance(s.value, ast.Call) and isinstance(s.value.func, ast.Attribute) \
+                    and s.value.func.attr == "append" and isinstance(s.value.func.value, ast.Name):
+                add(s.value.func.value.id)
+            elif isinstance(s, ast.For):
+                for x in self.assigned(s.body):
+                    add(x)
+            elif isinstance(s, (ast.Expr, ast.Pass, ast.Continue)):
                 pass
             else:
                 raise Unsupported(f"statement {type(s).__name__} inside a block")
@@ -268,6 +290,36 @@ class FnTr:
         s, rest = stmts[0], stmts[1:]
         if isinstance(s, ast.Expr) and isinstance(s.value, ast.Constant):  # docstring
             return self.block(rest, env, tail, ind)
+        if isinstance(s, ast.Continue):
+            return tail(env)
+        if isinstance(s, ast.Expr) and isinstance(s.value, ast.Call) and isinstance(s.value.func, ast.Attribute) and s.value.func.attr == "append":
+            lst = s.value.func.value.id
+            e, t = self.expr(s.value.args[0], env)
+            if env.get(lst) != "LE" or t != "E":
+                raise Unsupported("append")
+            return f"let {self.v(lst)} : List Ev := {self.v(lst)} ++ [{e}];\n{pad}" + self.block(rest, env, tail, ind)
+        if isinstance(s, ast.Assign) and isinstance(s.targets[0], ast.Attribute) and not rest:
+            # the method's result is what it stores on the object
+            return self.block([ast.Return(value=s.value)], env, tail, ind)
+        if isinstance(s, ast.Assign) and isinstance(s.targets[0], ast.Name) and isinstance(s.value, ast.List) and not s.value.elts \
+                and self.local_types.get(s.targets[0].id) == "LE":
+            env2 = dict(env, **{s.targets[0].id: "LE"})
+            return f"let {self.v(s.targets[0].id)} : List Ev := [];\n{pad}" + self.block(rest, env2, tail, ind)
+        if isinstance(s, ast.For):
+            if not isinstance(s.target, ast.Name) or s.orelse:
+                raise Unsupported("for target")
+            it, tit = self.expr(s.iter, env)
+            if tit != "LE":
+                raise Unsupported("for over a non-list")
+            ws = self.assigned(s.body)
+            for w in ws:
+                if w not in env:
+                    raise Unsupported(f"{w} first assigned inside a loop")
+            tupv = self.v(ws[0]) if len(ws) == 1 else "(" + ", ".join(self.v(w) for w in ws) + ")"
+            env_b = dict(env, **{s.target.id: "E"})
+            body = self.block(s.body, env_b, lambda e: tupv, ind + 2)
+            return (f"let {tupv} := {it}.foldl (fun {tupv} {self.v(s.target.id)} =>\n{pad}    ({body})) {tupv};\n{pad}"
+                    + self.block(rest, env, tail, ind))
         if isinstance(s, ast.Return):
             if isinstance(s.value, ast.Tuple):
                 parts = [self.expr(x, env) for x in s.value.elts]
@@ -328,9 +380,9 @@ class FnTr:
                 binds = "".join(b for nm, b in self._binds if re.search(r"\b" + re.escape(nm) + r"\b", c))
                 self.guards.append(f"{binds}decide (¬ {c})")
                 return self.block(rest, env, tail, ind)
-            if any(isinstance(x, ast.Return) for x in ast.walk(s)):
-                # if c: return a   (rest is the else branch)
-                a = self.block(s.body, env, tail, ind + 1)
+            if any(isinstance(x, (ast.Return, ast.Continue)) for x in ast.walk(s)):
+                # if c: return a   (rest is the else branch; a branch that does not return or continue goes on with the rest)
+                a = self.block(s.body + rest, env, tail, ind + 1)
                 b = self.block((s.orelse or []) + rest, env, tail, ind + 1)
                 return f"if {c} then\n{pad}  ({a})\n{pad}else\n{pad}  ({b})"
             ws = self.assigned(s.body + s.orelse)
@@ -413,6 +465,8 @@ def find_def(tree, qual):
     return node
 
 
+XKNOWN = {"fpe_equals": ("RV.Generated.Maths.fpe_equals", ["F", "F"], "B")}
+
 CONSTS = {
     "const.TWOPI": ("RV.Generated.TWOPI", "F"),
     "const.PI": ("RV.Generated.PI", "F"),
@@ -455,6 +509,16 @@ TARGETS = {
               "params": [("base_ok", "B"), ("base_reason", "S"), ("range_", "F"), ("max_range_to", "F")],
               "consts": {"super().isVisible": ("(base_ok, base_reason)", ("B", "S")), "getRange": ("range_", "F"),
                          "self.maximumRangeTo": ("max_range_to", "F")}}),
+        ],
+    },
+    "Agents": {
+        "file": "agents/agent_base.py",
+        "mode": "exact",
+        "imports": ["RV.Generated.Maths"],
+        "fns": [
+            ("Agent.prunePropagateEvents", "prunePropagateEvents", {"self": "-"}, 0,
+             {"params": [("now", "F"), ("propagate_event_queue", "LE")], "keep_isinstance": True, "locals": {"relevant_events": "LE"},
+              "consts": {"self._time": ("now", "F"), "self.propagate_event_queue": ("propagate_event_queue", "LE")}}),
         ],
     },
     "Maths": {
@@ -506,7 +570,7 @@ def generate(module):
         extra = ent[4] if len(ent) > 4 else {}
         tree = ast.parse((SRC / extra.get("file", spec["file"])).read_text())
         fdef = find_def(tree, qual)
-        fdef = _Isinstance().visit(ast.parse(ast.unparse(fdef)).body[0])
+        fdef = ast.parse(ast.unparse(fdef)).body[0] if extra.get("keep_isinstance") else _Isinstance().visit(ast.parse(ast.unparse(fdef)).body[0])
         table = {}
         if qual == "JulianDate.convertToScenarioTime":
             table = {("self", ast.Sub): "JulianDate.__sub__"}
@@ -517,6 +581,7 @@ def generate(module):
             ast.fix_missing_locations(fdef)
         tr = FnTr(lean_name, fdef, spec["mode"], ptypes, dict(CONSTS, **extra.get("consts", {})), known, fuel)
         tr.extra_params = list(extra.get("params", []))
+        tr.local_types = dict(extra.get("locals", {}))
         # a guard `if False: raise` left by the isinstance rewrite is dropped
         fdef.body = [s for s in fdef.body if not (isinstance(s, ast.If) and isinstance(s.test, ast.Constant) and s.test.value is False)]
         chunks.append(tr.translate())
@@ -527,6 +592,7 @@ def generate(module):
         f"/- GENERATED by harness/py2lean.py from /repo/src/resonaate/{spec['file']} on every run. Do not edit. -/",
         "import RV.Num.Py",
         "import RV.Generated.Constants",
+        *[f"import {m}" for m in spec.get("imports", [])],
         f"namespace RV.Generated.{module}",
         "open RV.F64 RV.Py",
         "set_option linter.unusedVariables false",
